@@ -38,6 +38,7 @@ type Task struct {
 	finished atomic.Bool
 	opSteps  atomic.Int64
 	lastSite atomic.Int64
+	locks    atomic.Int64 // locks of the code under test this task holds: it is never parked while > 0
 	body     func()
 	PanicVal any // set if body panicked (read after join)
 }
@@ -79,6 +80,21 @@ func InitSites(n int) {
 	siteHits = make([]atomic.Uint32, n+1)
 	rt.Hook = hook
 	rt.MapOrder = mapOrder
+	rt.LockHook = lockHook
+}
+
+// lockHook keeps count of the locks the running task holds (the instrumenter
+// reports sync.Mutex / RWMutex Lock and Unlock and sync.Once.Do of the library).
+func lockHook(d int) {
+	raceDisable()
+	if r := curRun.Load(); r != nil {
+		if t := r.curTask.Load(); t != nil {
+			if t.locks.Add(int64(d)) < 0 {
+				t.locks.Store(0)
+			}
+		}
+	}
+	raceEnable()
 }
 
 // Map iteration order is owned by the simulator: the instrumented copy ranges
@@ -142,7 +158,9 @@ func hook(site int) {
 		panic(StepBudgetExceeded{Steps: n})
 	}
 	if r.multi.Load() && t.id >= 0 && !r.coarse.Load() {
-		if r.quantum.Add(-1) <= 0 {
+		// a task that holds a lock of the code under test runs on until it has released it: parking it
+		// would make every other task that needs the lock block for real
+		if r.quantum.Add(-1) <= 0 && t.locks.Load() == 0 {
 			t.lastSite.Store(int64(site))
 			r.parked <- t.id
 			<-t.resume
